@@ -83,10 +83,10 @@ Lemma compile_obj_mc : forall g o m vec clr,
   c_mc (compile_core (op_cache g) (node_cache g) (node_labels g) (in_edge_indices g) (in_edge_vars g) (module_cache g) m vec).
 Proof. intros. unfold compile_obj. destruct (c_obs _); cbn; try reflexivity. destruct clr; reflexivity. Qed.
 
-Lemma fcompile_obj_mc : forall g o m file clr, module_cache (fst (fcompile_obj g o m file clr)) = module_cache g.
+Lemma fcompile_obj_mc : forall fd g o m file clr, module_cache (fst (fcompile_obj_k fd g o m file clr)) = module_cache g.
 Proof.
-  intros. unfold fcompile_obj. destruct (c_obs _); cbn; try reflexivity.
-  destruct (existsb _ _); cbn; [reflexivity|]. destruct clr; reflexivity.
+  intros. unfold fcompile_obj_k. destruct (c_obs _); cbn; try reflexivity.
+  destruct (negb fd && existsb _ _); cbn; [reflexivity|]. destruct clr; reflexivity.
 Qed.
 
 Lemma compile_obj_mc_ok : forall g o m vec clr, mc_ok (module_cache g) -> mc_ok (module_cache (fst (compile_obj g o m vec clr))).
@@ -112,7 +112,7 @@ Proof.
   - apply compile_obj_mc_ok. exact H.
   - apply compile_obj_mc_ok. exact H.
   - cbn [new_obj]. rewrite compile_in_fst. apply compile_obj_mc_ok. exact H.
-  - cbn [new_obj]. rewrite fcompile_obj_mc. exact H.
+  - unfold fstep_k. cbn [new_obj]. rewrite fcompile_obj_mc. exact H.
   - destruct (from_yaml g) as [g1 e] eqn:E. apply compile_obj_mc_ok. cbn.
     replace g1 with (fst (from_yaml g)) by (rewrite E; reflexivity). rewrite from_yaml_mc. exact H.
   - destruct (from_yaml g) as [g1 e] eqn:E. cbn.
@@ -210,45 +210,80 @@ Proof.
   exact (partial_yaml_fx fixed_clear h Hc Ht).
 Qed.
 
-(* Fortran backend: what the observable reads *)
-Definition fobs (opc : list (string * (expr * Qc))) (nodec : list (expr * cnode)) (labels : list (string * nat))
+(* Fortran backend: what the observable reads (fd = the switch fixed_D29) *)
+Definition fobs (fd : bool) (opc : list (string * (expr * Qc))) (nodec : list (expr * cnode)) (labels : list (string * nat))
            (iei : list (string * nat)) (iev : list string) (py : list string) (ext : list (string * code))
            (m : model) (file : string) : obs :=
   let c := compile_core opc nodec labels iei iev [] m false in
   match c_obs c with
   | OOk _ _ _ _ =>
-      if existsb (String.eqb file) py then OErr "ImportError"
-      else with_dy (c_obs c) (run_code (match lookup String.eqb file ext with Some s => s | None => c_src c end) (c_args c))
+      if negb fd && existsb (String.eqb file) py then OErr "ImportError"
+      else with_dy (c_obs c) (run_code (if fd then c_src c
+                                        else match lookup String.eqb file ext with Some s => s | None => c_src c end) (c_args c))
   | _ => c_obs c
   end.
 
-Lemma obs_of_fortran_core : forall g m file,
-  obs_of_fortran g m file = fobs (op_cache g) (node_cache g) (node_labels g) (in_edge_indices g) (in_edge_vars g)
-                                 (sys_py (mods g)) (ext_mods (mods g)) m file.
+Lemma obs_of_fortran_k_core : forall fd g m file,
+  obs_of_fortran_k fd g m file = fobs fd (op_cache g) (node_cache g) (node_labels g) (in_edge_indices g) (in_edge_vars g)
+                                      (sys_py (mods g)) (ext_mods (mods g)) m file.
 Proof.
-  intros. unfold obs_of_fortran, fobs. cbn [step_with new_obj]. unfold fcompile_obj. cbn.
-  destruct (c_obs _); try reflexivity. destruct (existsb _ _); reflexivity.
+  intros. unfold obs_of_fortran_k, fstep_k, fobs. cbn [new_obj]. unfold fcompile_obj_k. cbn.
+  destruct (c_obs _); try reflexivity. destruct (negb fd && existsb _ _); reflexivity.
 Qed.
 
-(* history independence, Fortran backend: additionally nothing may have been imported as an extension module before *)
-Theorem partial_fortran_fx : forall fx h m file,
-  caches_clean (run_hist_with fx h G0) = true -> fortran_clean (run_hist_with fx h G0) = true ->
-  obs_of_fortran (run_hist_with fx h G0) m file = obs_of_fortran G0 m file.
-Proof.
-  intros fx h m file Hc Hf. rewrite !obs_of_fortran_core.
-  apply caches_clean_fields in Hc as (A & B & C & D & E & _ & P). unfold fortran_clean in Hf. apply is_nil_true in Hf.
-  rewrite A, B, C, D, E, P, Hf. reflexivity.
-Qed.
+Lemma obs_of_fortran_is_k : forall g m file, obs_of_fortran g m file = obs_of_fortran_k fixed_D29 g m file.
+Proof. reflexivity. Qed.
 
-Theorem partial_fortran : forall h m file, CachesClean h = true -> FortranClean h = true ->
-  obs_of_fortran (run_hist h G0) m file = obs_of_fortran G0 m file.
-Proof. intros h m file. exact (partial_fortran_fx fixed_clear h m file). Qed.
-
-(* ------------------------------------------------------------------ reset points *)
 Definition frontend_clean (g : G) : bool :=
   is_nil (op_cache g) && is_nil (node_cache g) && is_nil (node_labels g) && is_nil (in_edge_indices g) &&
   is_nil (in_edge_vars g) && is_nil (input_labels g).
 
+Lemma frontend_clean_fields : forall g, frontend_clean g = true ->
+  op_cache g = [] /\ node_cache g = [] /\ node_labels g = [] /\ in_edge_indices g = [] /\ in_edge_vars g = [] /\ input_labels g = [].
+Proof.
+  unfold frontend_clean. intros g H. repeat (apply andb_true_iff in H as [H ?]).
+  repeat split; apply is_nil_true; assumption.
+Qed.
+
+Lemma caches_frontend_clean : forall g, caches_clean g = true -> frontend_clean g = true.
+Proof.
+  intros g H. apply caches_clean_fields in H as (A & B & C & D & E & F & _). unfold frontend_clean.
+  rewrite A, B, C, D, E, F. reflexivity.
+Qed.
+
+(* BEFORE the repair D96 (fd = false): history independence of a Fortran compilation additionally needs that no Python module is
+   registered under a file name and that nothing was imported as an extension module before *)
+Theorem partial_fortran_before_fix : forall g m file, caches_clean g = true -> fortran_clean g = true ->
+  obs_of_fortran_k false g m file = obs_of_fortran_k false G0 m file.
+Proof.
+  intros g m file Hc Hf. rewrite !obs_of_fortran_k_core.
+  apply caches_clean_fields in Hc as (A & B & C & D & E & _ & P). unfold fortran_clean in Hf. apply is_nil_true in Hf.
+  rewrite A, B, C, D, E, P, Hf. reflexivity.
+Qed.
+
+(* WITH the repair (fd = true): the frontend caches alone decide; the module tables are not read *)
+Theorem partial_fortran_fixed : forall g m file, frontend_clean g = true ->
+  obs_of_fortran_k true g m file = obs_of_fortran_k true G0 m file.
+Proof.
+  intros g m file Hc. rewrite !obs_of_fortran_k_core.
+  apply frontend_clean_fields in Hc as (A & B & C & D & E & _). rewrite A, B, C, D, E. reflexivity.
+Qed.
+
+(* the form the check uses: guard  fixed_D29 || FortranClean *)
+Theorem partial_fortran_fx : forall fx h m file,
+  caches_clean (run_hist_with fx h G0) = true -> (fixed_D29 || fortran_clean (run_hist_with fx h G0)) = true ->
+  obs_of_fortran (run_hist_with fx h G0) m file = obs_of_fortran G0 m file.
+Proof.
+  intros fx h m file Hc Hf. rewrite !obs_of_fortran_is_k. destruct fixed_D29.
+  - apply partial_fortran_fixed. apply caches_frontend_clean. exact Hc.
+  - apply partial_fortran_before_fix; assumption.
+Qed.
+
+Theorem partial_fortran : forall h m file, CachesClean h = true -> (fixed_D29 || FortranClean h) = true ->
+  obs_of_fortran (run_hist h G0) m file = obs_of_fortran G0 m file.
+Proof. intros h m file. exact (partial_fortran_fx fixed_clear h m file). Qed.
+
+(* ------------------------------------------------------------------ reset points *)
 (* default-backend compilations read the frontend caches only (not the table of Python modules) *)
 Theorem partial_compile_frontend : forall fx h m vec, frontend_clean (run_hist_with fx h G0) = true ->
   obs_of (run_hist_with fx h G0) m vec = obs_of G0 m vec.
@@ -320,14 +355,14 @@ Proof.
   - rewrite Hp. unfold caches_clean. cbn. unfold file_of. cbn. rewrite String.eqb_refl. cbn. auto.
 Qed.
 
-Lemma fcompile_obj_clean : forall g o m file, sys_py (mods g) = [] -> (forall c, snd (fcompile_obj g o m file true) <> OErr c) ->
-  caches_clean (fst (fcompile_obj g o m file true)) = true /\
-  template_cache (fst (fcompile_obj g o m file true)) = template_cache g.
+Lemma fcompile_obj_clean : forall fd g o m file, sys_py (mods g) = [] -> (forall c, snd (fcompile_obj_k fd g o m file true) <> OErr c) ->
+  caches_clean (fst (fcompile_obj_k fd g o m file true)) = true /\
+  template_cache (fst (fcompile_obj_k fd g o m file true)) = template_cache g.
 Proof.
-  intros g o m file Hp. unfold fcompile_obj. destruct (c_obs _) eqn:E; cbn; intros H.
+  intros fd g o m file Hp. unfold fcompile_obj_k. destruct (c_obs _) eqn:E; cbn; intros H.
   - exfalso. eapply H. reflexivity.
   - exfalso. eapply compile_core_not_ack. exact E.
-  - rewrite Hp in *. cbn in *. unfold caches_clean. cbn. auto.
+  - rewrite Hp in *. cbn in *. rewrite andb_false_r in *. cbn in *. unfold caches_clean. cbn. auto.
 Qed.
 
 (* get_run_func/run/get_jacobian_func with clear=True that succeeds leaves the caches as a fresh process has them
@@ -381,13 +416,23 @@ Proof.
 Qed.
 
 (* no step ever removes an entry of the table of extension modules: D29 is not cured by any clearing call *)
-Lemma fcompile_obj_ext : forall g o m file clr f s,
-  lookup String.eqb f (ext_mods (mods g)) = Some s -> lookup String.eqb f (ext_mods (mods (fst (fcompile_obj g o m file clr)))) = Some s.
+Lemma lookup_app_some : forall (l l' : list (string * code)) f s,
+  lookup String.eqb f l = Some s -> lookup String.eqb f (l ++ l')%list = Some s.
 Proof.
-  intros g o m file clr f s H. unfold fcompile_obj. destruct (c_obs _); cbn; auto.
-  destruct (existsb _ _); cbn; auto.
-  destruct (lookup String.eqb file (ext_mods (mods g))) eqn:E; destruct clr; cbn; auto;
-    destruct (String.eqb f file) eqn:F; auto; apply String.eqb_eq in F; subst; rewrite H in E; discriminate.
+  induction l as [|[k v] l IH]; cbn; intros l' f s H; [discriminate|].
+  destruct (String.eqb f k); [exact H|apply IH; exact H].
+Qed.
+
+Lemma fcompile_obj_ext : forall fd g o m file clr f s,
+  lookup String.eqb f (ext_mods (mods g)) = Some s ->
+  lookup String.eqb f (ext_mods (mods (fst (fcompile_obj_k fd g o m file clr)))) = Some s.
+Proof.
+  intros fd g o m file clr f s H. unfold fcompile_obj_k. destruct (c_obs _); cbn; auto.
+  destruct (negb fd && existsb _ _); cbn; auto.
+  destruct fd.
+  - destruct (has_ext _ _ _); destruct clr; cbn; auto; apply lookup_app_some; exact H.
+  - destruct (lookup String.eqb file (ext_mods (mods g))) eqn:E; destruct clr; cbn; auto;
+      destruct (String.eqb f file) eqn:F; auto; apply String.eqb_eq in F; subst; rewrite H in E; discriminate.
 Qed.
 
 Theorem ext_mods_persist : forall fx g o f s,
@@ -403,7 +448,7 @@ Proof.
   - rewrite compile_in_fst.
     match goal with |- context [compile_obj ?G ?O ?M ?V ?C] => destruct (compile_obj_frame G O M V C) as (_ & _ & _ & D & _) end.
     rewrite D. exact H.
-  - apply fcompile_obj_ext. cbn. exact H.
+  - unfold fstep_k. cbn [new_obj]. apply fcompile_obj_ext. cbn. exact H.
   - unfold from_yaml, from_yaml_k. destruct fixed_yaml_copy; destruct (template_cache g); cbn;
       match goal with |- context [compile_obj ?G ?O ?M ?V ?C] => destruct (compile_obj_frame G O M V C) as (_ & _ & _ & D & _) end;
       rewrite D; exact H.
@@ -474,9 +519,9 @@ Proof.
         destruct (compile_obj_clean G O m vec P (not_err _ Hn1)) as (K1 & K2 & _) end.
       eapply IH; eauto. intros X. unfold template_clean. rewrite K2. cbn. apply Ht. exact X.
     + apply andb_true_iff in Hd as [Hclr Hd]. subst clr.
-      apply negb_true_iff in Hn1. cbn [step_with new_obj] in *.
-      match type of Hn1 with is_err (snd (fcompile_obj ?G ?O _ _ _)) = _ =>
-        destruct (fcompile_obj_clean G O m file P (not_err _ Hn1)) as (K1 & K2) end.
+      apply negb_true_iff in Hn1. cbn [step_with] in *. unfold fstep_k in *. cbn [new_obj] in *.
+      match type of Hn1 with is_err (snd (fcompile_obj_k ?FD ?G ?O _ _ _)) = _ =>
+        destruct (fcompile_obj_clean FD G O m file P (not_err _ Hn1)) as (K1 & K2) end.
       eapply IH; eauto. intros X. unfold template_clean. rewrite K2. cbn. apply Ht. exact X.
     + apply andb_true_iff in Hd as [Hclr Hd]. subst clr.
       apply negb_true_iff in Hn1. cbn [step_with] in *.
